@@ -306,7 +306,7 @@ PROPS["C14"] = dict(
     "read_buffer_size + one frame + headers.",
     assumptions=["held on the generated interleavings (deterministic current-thread runtime; schedule diversity comes from the transport script and task plans)"],
     stages=[dict(name="mux", flavour="release", **NET)],
-    floors={"quick": {"transient_streams_completed": 3000, "capabilities_that_reached_their_stream_limit": 200, "capabilities_with_mismatched_limits": 200, "capabilities_with_zero_limit": 50, "flood_with_open_cases": 100},
+    floors={"quick": {"transient_streams_completed": 3000, "capabilities_that_reached_their_stream_limit": 200, "capabilities_with_mismatched_limits": 200, "capabilities_with_zero_limit": 50, "flood_with_open_cases": 100, "connections_with_streams_in_both_directions": 100},
             "thorough": {"transient_streams_completed": 100000}},
 )
 
